@@ -713,7 +713,8 @@ class ImageSegmentHeader(NITFElement):
         self._IC = value
         if value in ('NC', 'NM'):
             self._COMRAT = None
-        elif self._COMRAT is not None:
+        elif self._COMRAT is None:
+            # a compression code requires COMRAT: blank until it is assigned; an existing value is kept
             self._COMRAT = '\x20'*4
 
     @property
@@ -1134,7 +1135,8 @@ class ImageSegmentHeader0(NITFElement):
         self._IC = value
         if value in ('NC', 'NM'):
             self._COMRAT = None
-        elif self._COMRAT is not None:
+        elif self._COMRAT is None:
+            # a compression code requires COMRAT: blank until it is assigned; an existing value is kept
             self._COMRAT = '\x20'*4
 
     @property
